@@ -333,9 +333,13 @@ pub mod proofs {
             }
             None => assert!(want == 0, "C06 a token is produced iff some expected terminal matches"),
         }
-        kani::cover!(want != 0 && s.ms && s.kind[0] > 0 && s.m[1].is_some() && s.kind[1] == 0, "string beats matching regex candidate");
-        kani::cover!(want == 2 && s.m[0].is_some(), "second terminal wins over a matching first");
-        kani::cover!(want == 0, "nothing matches");
+        if !tail {
+            kani::cover!(want != 0 && s.ms && s.kind[0] > 0 && s.m[1].is_some() && s.kind[1] == 0, "string beats matching regex candidate");
+            kani::cover!(want == 2 && s.m[0].is_some(), "second terminal wins over a matching first");
+            kani::cover!(want == 0, "nothing matches");
+        } else {
+            kani::cover!(want == 1 && s.m[1].is_none() && s.m[2].is_some(), "lower-priority match after an unmatched group member is suppressed");
+        }
         std::mem::forget(got);
     }
 
@@ -357,8 +361,12 @@ pub mod proofs {
             i += 1;
         }
         assert!(mask == want, "C06 GLR keeps exactly the tokens surviving the enabled strategies");
-        kani::cover!(want.count_ones() >= 2, "two tokens survive (GLR follows both)");
-        kani::cover!(want.count_ones() == 1 && s.m[0].is_some() && s.m[1].is_some(), "two match, one survives");
+        if !tail {
+            kani::cover!(want.count_ones() >= 2, "two tokens survive (GLR follows both)");
+            kani::cover!(want.count_ones() == 1 && s.m[0].is_some() && s.m[1].is_some(), "two match, one survives");
+        } else {
+            kani::cover!(want == 1 && s.m[1].is_none() && s.m[2].is_some(), "lower-priority match after an unmatched group member is suppressed");
+        }
         std::mem::forget(got);
     }
 
